@@ -22,6 +22,7 @@ Section P.
   Notation repair_loop := (repair_loop frepr loads_s loads_b).
   Notation relocate := (relocate).
   Notation reinit := (reinit frepr loads_b).
+  Notation resolve_id := (resolve_id).
   Notation repair_in := (repair_in frepr loads_s loads_b).
   Notation sound := (sound frepr).
   Notation Inv := (Inv frepr).
@@ -112,37 +113,25 @@ Section P.
 
   (* ================================================================ B. opening by id *)
   (* statepoint() of a job opened by id, in a session whose caches are sound, either raises or returns a
-     state point hashing to the (resolved) id — EXCEPT in one place: the loaded data is None (missing
-     file) and the id is md5("null"), where the empty mapping is returned. *)
-  Theorem open_by_id_characterised : forall f s i s' sp,
+     state point hashing to the (resolved) id *)
+  Theorem open_by_id_never_wrong : forall f s i s' sp,
     Inv f s -> open_sp_by_id f s i = (s', Ok sp) ->
-    exists m, (m = i \/ resolve f WSP i = inl m) /\
-              (cid sp = m \/ (m = cid JNull /\ sp = JObj [] /\ sp_load f m = Ok JNull)).
+    exists m, (m = i \/ resolve_id f i = Ok m) /\ cid sp = m.
   Proof.
     intros f s i s' sp H E. unfold Cache.open_sp_by_id, Cache.open_id in E.
     pose proof (ensure_read_sound frepr f s H) as H1.
     destruct (alookup i (s_cache (ensure_read f s))) as [x|] eqn:El.
     - unfold Cache.handle_sp in E. simpl in E. destruct (is_objb x); inversion E; subst.
-      exists i. split; auto. left. apply alookup_In in El. apply H1 in El. exact El.
-    - destruct (resolve f WSP i) as [m|e] eqn:Er; [|inversion E].
-      unfold Cache.handle_sp in E. simpl in E.
-      destruct (sp_load_view f m) as [[d v]|] eqn:Ev; inversion E; subst.
-      exists m. split; auto. unfold Cache.sp_load_view in Ev.
-      destruct (sp_load f m) as [d'|] eqn:Ed; [|discriminate].
-      pose proof (sp_load_valid frepr loads_b f m d' Ed) as Hid.
-      destruct d'; simpl in Ev; inversion Ev; subst; auto.
+      exists i. split; auto. apply alookup_In in El. apply H1 in El. exact El.
+    - destruct (resolve_id f i) as [m|e] eqn:Er; [|inversion E].
+      exists m. split; auto. unfold Cache.handle_sp in E. simpl in E.
+      destruct (alookup m (s_cache (ensure_read f s))) as [x|] eqn:Em.
+      + destruct (is_objb x); inversion E; subst. apply alookup_In in Em. apply H1 in Em. exact Em.
+      + destruct (sp_load_view f m) as [[d v]|] eqn:Ev; inversion E; subst.
+        unfold Cache.sp_load_view in Ev. destruct (sp_load f m) as [d'|] eqn:Ed; [|discriminate].
+        destruct (sp_load_valid frepr loads_b f m d' Ed) as [Hid Hnn].
+        destruct d'; simpl in Ev; inversion Ev; subst; auto. exfalso. apply Hnn. reflexivity.
   Qed.
-
-  Theorem open_by_id_never_wrong_partial : forall f s i s' sp,
-    Inv f s -> open_sp_by_id f s i = (s', Ok sp) ->
-    (forall m, sp_load f m = Ok JNull -> False) ->
-    exists m, (m = i \/ resolve f WSP i = inl m) /\ cid sp = m.
-  Proof.
-    intros f s i s' sp H E Hn. destruct (open_by_id_characterised f s i s' sp H E) as [m [Hm [Hc|[_ [_ Hl]]]]].
-    - exists m. auto.
-    - exfalso. eapply Hn; eauto.
-  Qed.
-
 
   (* ================================================================ C. repair() touches state point files and
      directory names only *)
@@ -253,8 +242,7 @@ Section P.
         pose proof (frame_json_write _ _ _ _ Ew) as W2.
         destruct (sp_load_view f2 (Cache.cid frepr sp)) as [[d v]|]; inversion H; subst; eapply frame_trans; eauto.
       + destruct (sp_load_view f1 (Cache.cid frepr sp)) as [[d v]|]; inversion H; subst; auto.
-    - destruct (makedirs f (jdir (Cache.cid frepr sp))) eqn:Em; inversion H; subst; [|apply frame_refl].
-      eapply frame_makedirs; eauto.
+    - inversion H; subst. apply frame_refl.
   Qed.
 
   Lemma frame_relocate : forall f i ci f1, relocate f i ci = Some f1 -> frame f f1.
@@ -284,8 +272,8 @@ Section P.
         destruct (reinit f1 s1 sp) as [[f2 s2] ok] eqn:Er.
         pose proof (frame_reinit _ _ _ _ _ _ Er) as W2.
         destruct sp; try (eapply frame_trans; [exact W1|]; eapply frame_trans; [exact W2|]; eapply IH; exact H).
-        inversion H; subst. exact W1.
-      + destruct e; try (inversion H; subst; apply frame_refl). eapply IH; eauto.
+        eapply frame_trans; [exact W1|]. eapply IH; exact H.
+      + eapply IH; eauto.
   Qed.
 
   Theorem repair_frame : forall f s ids f' s' r, repair_in f s ids = (f', s', r) -> frame f f'.
@@ -336,30 +324,28 @@ Section P.
   Proof.
     intros f i v f' H Hc Ho. unfold Cache.sp_load_view, Cache.sp_load.
     rewrite (json_write_spf frepr f i v f' H), path_eqb_refl. simpl. rewrite Hinv_b.
-    unfold Cache.cid in *. rewrite Hc, str_eqb_refl. destruct v; try discriminate. reflexivity.
+    unfold Cache.cid in *. destruct v; try discriminate Ho. rewrite Hc, str_eqb_refl. reflexivity.
   Qed.
 
   (* a successful load (with a file) means check() accepts the job too *)
-  Lemma load_ok_valid : forall f i d v, i <> cid JNull -> sp_load_view f i = Ok (d, v) -> valid f i = true.
+  Lemma load_ok_valid : forall f i d v, sp_load_view f i = Ok (d, v) -> valid f i = true.
   Proof.
-    intros f i d v Hn H. unfold Cache.sp_load_view in H. destruct (sp_load f i) as [d'|] eqn:E; [|discriminate].
+    intros f i d v H. unfold Cache.sp_load_view in H. destruct (sp_load f i) as [d'|] eqn:E; [|discriminate].
     unfold Cache.sp_load in E. unfold Repair.valid.
-    destruct (get f (spf i)) as [[c|]|].
-    - destruct (loads_b (c_bytes c)) as [x| |] eqn:Eb; try discriminate.
-      rewrite (Hagree _ _ Eb). destruct (str_eqb (Cache.cid frepr x) i) eqn:Ex; [reflexivity|discriminate].
-    - discriminate.
-    - destruct (str_eqb (Cache.cid frepr JNull) i) eqn:Ex; [|discriminate].
-      apply str_eqb_eq in Ex. exfalso. apply Hn. symmetry. exact Ex.
+    destruct (get f (spf i)) as [[c|]|]; try discriminate.
+    destruct (loads_b (c_bytes c)) as [x| |] eqn:Eb; try discriminate.
+    rewrite (Hagree _ _ Eb).
+    destruct x; try discriminate E; (destruct (str_eqb (Cache.cid frepr _) i) eqn:Ex; [reflexivity|discriminate E]).
   Qed.
 
   (* the re-initialisation step of repair() on a job whose state point is known makes it valid *)
   Lemma reinit_restores : forall f s sp i,
-    is_objb sp = true -> cid sp = i -> i <> cid JNull ->
+    is_objb sp = true -> cid sp = i ->
     get f [WS] = Some Dir -> get f (jdir i) = Some Dir ->
     get f (spf i) <> Some Dir -> get f (tmpf i) <> Some Dir ->
     exists f' s', reinit f s sp = (f', s', true) /\ valid f' i = true.
   Proof.
-    intros f s sp i Ho Hc Hn Hw Hd Hs Ht. unfold Repair.reinit, Cache.jinit. rewrite Ho. simpl negb. cbv iota.
+    intros f s sp i Ho Hc Hw Hd Hs Ht. unfold Repair.reinit, Cache.jinit. rewrite Ho. simpl negb. cbv iota.
     unfold Cache.cid in *. rewrite Hc. rewrite (makedirs_jdir_existing f i Hw Hd).
     destruct (sp_load_view f i) as [[d v]|e] eqn:El.
     - exists f, s. split; auto. eapply load_ok_valid; eauto.
